@@ -279,3 +279,9 @@ Proof.
   intros Hd Ha Hte Hs. apply (write_accept_window d nowsec t Hd) in Ha.
   destruct (expired d e storenow) eqn:E; [|auto]. apply expired_spec in E. lia.
 Qed.
+
+Lemma write_accept_min_time d nowsec t : write_accept d nowsec t = negb (t <? min_time d nowsec).
+Proof. unfold write_accept, min_time. destruct (0 <? d); reflexivity. Qed.
+
+Lemma admit_batch_nth d nowsec ts k t : nth_error ts k = Some t -> nth_error (admit_batch d nowsec ts) k = Some (write_accept d nowsec t).
+Proof. intros H. unfold admit_batch. now rewrite nth_error_map, H. Qed.
